@@ -13,6 +13,7 @@ import (
 	"github.com/sdcio/data-server/pkg/datastore/types"
 	"github.com/sdcio/data-server/pkg/tree"
 	"github.com/sdcio/data-server/pkg/utils"
+	"github.com/sdcio/data-server/pkg/verifhook"
 	sdcpb "github.com/sdcio/sdc-protos/sdcpb"
 	log "github.com/sirupsen/logrus"
 	"google.golang.org/protobuf/proto"
@@ -391,6 +392,7 @@ func (d *Datastore) TransactionSet(ctx context.Context, transactionId string, tr
 			return nil, ErrDatastoreLocked
 		default:
 			// Start a transaction and prepare to cancel it if any error occurs
+			verifhook.Point("ds.set.register")
 			transactionGuard, err = d.transactionManager.RegisterTransaction(ctx, transaction)
 			if transactionGuard != nil {
 				defer transactionGuard.Done()
@@ -459,6 +461,7 @@ func cacheUpdateToSdcpbUpdate(lvs tree.LeafVariantSlice) ([]*sdcpb.Update, error
 
 func (d *Datastore) TransactionConfirm(ctx context.Context, transactionId string) error {
 	log.Infof("Transaction %s - Confirm", transactionId)
+	verifhook.Point("ds.confirm.enter")
 
 	if !d.dmutex.TryLock() {
 		return ErrDatastoreLocked
@@ -470,6 +473,7 @@ func (d *Datastore) TransactionConfirm(ctx context.Context, transactionId string
 
 func (d *Datastore) TransactionCancel(ctx context.Context, transactionId string) error {
 	log.Infof("Transaction %s - Cancel", transactionId)
+	verifhook.Point("ds.cancel.enter")
 
 	if !d.dmutex.TryLock() {
 		return ErrDatastoreLocked
